@@ -14,7 +14,7 @@ def junk_lines(rng):
 
 class C13(PropBase):
     id = "C13"
-    lean_modules = ["SqModel.Props.C13"]
+    lean_modules = ["SqModel.Props.C13", "SqModel.Proofs.BridgeTable"]
     rule = ("valid streams of 20-80 frames of every format for 3 aircraft; junk lines (empty, NUL, 0x80-0xFF, invalid UTF-8 "
             "sequences, lone CR, > 64 KiB, truncated / over-long frames, non-hex) inserted at random positions; the table after "
             "the real reader thread ran over the junk-laden file against the table after the clean file (impl vs impl), and "
